@@ -197,6 +197,7 @@ def run(pid, modname, tier, seed, env, scratch, nshards, t0):
         e["VERIF_SHARD"] = str(k)
         e["VERIF_KERNEL_WORLD"] = "P" if k % 2 else "S"
         e["NUMBA_CACHE_DIR"] = env["NUMBA_CACHE_DIR"][:-1] + e["VERIF_KERNEL_WORLD"]
+        e["VERIF_BLDFM_LOGLEVEL"] = "DEBUG" if k % 4 == 3 else "ERROR"   # verbosity must not change results
         e["VERIF_TIER"] = tier
         e["VERIF_SEED"] = str(seed)
         p = subprocess.Popen([PY, "-m", "vlib.worker", modname, str(d / "in.json"), str(d / "out.jsonl")],
